@@ -24,7 +24,7 @@ func init() {
 		Level: "model_checking",
 		Rule: "product per producing transaction type (send, send-with-caller, deposit, deposit-with-caller, replace-message, replace-deposit) over destination domains {0,1,4,256,2^32-1}, six 32-byte patterns for recipient/caller/mint recipient, " +
 			"bodies of length {0,1,131,132,133,4096,7999,max}, amounts {1,2^64+1,whole balance}, 3 submitters, at 3 history points (fresh / after traffic / after a pause-unpause cycle); every MessageSent is reference-decoded and compared field by field " +
-			"with the request, the response nonce and the DepositForBurn event; a replacement's event is compared with the original deposit's event; distinct_nontrivial = distinct successful cases checked",
+			"with the request, the response nonce and the DepositForBurn event; a replacement's event is compared with the original deposit's event; the deposit kinds also under a minting denom with upper-case letters; thorough extends every axis (13 destination domains each with a messenger, 32 positional patterns with a single 0xFF byte at each offset, every body length 0..140 and lengths around 256/1024/4096/limit) and takes the product with at most one axis outside its quick range; distinct_nontrivial = distinct successful cases checked",
 		Assumptions: []string{"an empty destination caller in the DepositForBurn event of a caller-less deposit is identified with all-zero", "the deposit event's burn_token is constrained only through the replacement-equals-original clause"},
 		Jobs:        c06Jobs,
 		Vacuity: func(m *Run) []string {
@@ -68,6 +68,13 @@ func c06Run(r *Run, hp, kind string) {
 	if hp == "denom-uUSDC" { // the minting denom is a genesis matter; the burn token on the wire is keccak256 of its LOWER-CASED spelling
 		denom = "uUSDC"
 		scn.Ledger.MintingDenom = denom
+	}
+	c06ExtraDoms := []uint32{2, 3, 5, 255, 65535, 65536, 1<<31 - 1, 1 << 31}
+	if r.Tier == "thorough" { // a token messenger for every destination domain of the thorough sweep
+		scn.Genesis.TokenMessengerList = append([]cctptypes.RemoteTokenMessenger{}, scn.Genesis.TokenMessengerList...)
+		for i, d := range c06ExtraDoms {
+			scn.Genesis.TokenMessengerList = append(scn.Genesis.TokenMessengerList, cctptypes.RemoteTokenMessenger{DomainId: d, Address: distinct32(byte(0xD0 + i))})
+		}
 	}
 	w := scn.Build(KindDB)
 	signers := Keys[0:2]
@@ -118,6 +125,45 @@ func c06Run(r *Run, hp, kind string) {
 		}
 		bodies = append(bodies, mk(131, 3), mk(133, 5), mk(4096, 7), mk(7999, 11))
 		doms = append(doms, 4, 256)
+	}
+
+	qd, qp, qb := len(doms), len(pats), len(bodies)
+	// thorough extends each axis; the product is then taken with AT MOST ONE axis outside its quick
+	// range (every extended value of every axis meets every quick value of all other axes)
+	ext := func(flags ...bool) bool {
+		n := 0
+		for _, f := range flags {
+			if f {
+				n++
+			}
+		}
+		return n > 1
+	}
+	if r.Tier == "thorough" {
+		// positional patterns: one 0xFF byte at every position of a 32-byte field (an offset or
+		// length mistake in any field shows as a moved byte); every body length 0..140 and the
+		// lengths around powers of two and around the limit; more destination domains
+		for i := 0; i < 32; i += 1 {
+			p := make([]byte, 32)
+			p[i] = 0xFF
+			pats = append(pats, p)
+		}
+		mkb := func(n int) []byte {
+			b := make([]byte, n)
+			for i := range b {
+				b[i] = byte(i*7 + n)
+			}
+			return b
+		}
+		for n := 2; n <= 140; n++ {
+			if n != 131 && n != 132 && n != 133 {
+				bodies = append(bodies, mkb(n))
+			}
+		}
+		for _, n := range []int{255, 256, 257, 1023, 1024, 1025, 4095, 4097, 7998} {
+			bodies = append(bodies, mkb(n))
+		}
+		doms = append(doms, c06ExtraDoms...)
 	}
 
 	check := func(a Action) (Outcome, Pred, bool) {
@@ -219,19 +265,27 @@ func c06Run(r *Run, hp, kind string) {
 		return ev
 	}
 
+	callers := append(append(append([][]byte{}, pats[:qp]...), pats[0][:20], append(append([]byte{}, pats[0]...), 9)), pats[qp:]...)
+	qc := qp + 2
 	switch kind {
 	case "send", "sendWithCaller":
 		for _, s := range subs {
-			for _, d := range doms {
+			for di, d := range doms {
 				for ri, rc := range pats {
 					for bi, body := range bodies {
+						if ext(di >= qd, ri >= qp, bi >= qb) {
+							continue
+						}
 						if kind == "send" {
 							a := MkSend(s.Str, d, rc, body)
 							a.Desc = fmt.Sprintf("send(dst=%d,recipient#%d,body#%d) by %s", d, ri, bi, s.Name)
 							check(a)
 							continue
 						}
-						for ci, cl := range append(append([][]byte{}, pats...), pats[0][:20], append(append([]byte{}, pats[0]...), 9)) {
+						for ci, cl := range callers {
+							if ext(di >= qd, ri >= qp, bi >= qb, ci >= qc) {
+								continue
+							}
 							a := MkSendWithCaller(s.Str, d, rc, body, cl)
 							a.Desc = fmt.Sprintf("sendWithCaller(dst=%d,recipient#%d,body#%d,caller#%d) by %s", d, ri, bi, ci, s.Name)
 							check(a)
@@ -248,8 +302,11 @@ func c06Run(r *Run, hp, kind string) {
 				amts = append(amts, intFromBig(new(big.Int).Add(bigPow2(64), big.NewInt(1))))
 			}
 			for _, amt := range amts {
-				for _, d := range doms {
+				for di, d := range doms {
 					for ri, rc := range pats {
+						if ext(di >= qd, ri >= qp) {
+							continue
+						}
 						if kind == "deposit" {
 							a := MkDeposit(s.Str, amt, d, rc, denom)
 							a.Desc = fmt.Sprintf("deposit(%s,dst=%d,recipient#%d) by %s", amt, d, ri, s.Name)
@@ -258,7 +315,10 @@ func c06Run(r *Run, hp, kind string) {
 							}
 							continue
 						}
-						for ci, cl := range append(append([][]byte{}, pats...), pats[0][:20], append(append([]byte{}, pats[0]...), 9)) {
+						for ci, cl := range callers {
+							if ext(di >= qd, ri >= qp, ci >= qc) {
+								continue
+							}
 							a := MkDepositWithCaller(s.Str, amt, d, rc, denom, cl)
 							a.Desc = fmt.Sprintf("depositWithCaller(%s,dst=%d,recipient#%d,caller#%d) by %s", amt, d, ri, ci, s.Name)
 							if o, p, ok := check(a); ok {
@@ -272,7 +332,7 @@ func c06Run(r *Run, hp, kind string) {
 	case "replace":
 		// originals produced here, then replaced with every new-field combination
 		for _, s := range []Account{UserA, UserB} {
-			for _, d := range doms {
+			for _, d := range doms[:qd] {
 				w.Load(base)
 				o1 := w.Apply(MkSendWithCaller(s.Str, d, pats[0], bodies[2], pats[1]))
 				o2 := w.Apply(MkDepositWithCaller(s.Str, math.NewInt(3), d, pats[0], denom, pats[1]))
@@ -287,15 +347,22 @@ func c06Run(r *Run, hp, kind string) {
 				midPre := append(append([]Action{}, pre...), MkSendWithCaller(s.Str, d, pats[0], bodies[2], pats[1]), MkDepositWithCaller(s.Str, math.NewInt(3), d, pats[0], denom, pats[1]))
 				saveBase, saveView, savePre := base, view, pre
 				base, view, pre = mid, midView, midPre
+				rcallers := append(append(append([][]byte{}, pats[:qp]...), Zero32, nil), pats[qp:]...)
 				for bi, body := range bodies {
-					for ci, cl := range append(append([][]byte{}, pats...), Zero32, nil) {
+					for ci, cl := range rcallers {
+						if ext(bi >= qb, ci >= qc) {
+							continue
+						}
 						a := MkReplaceMessage(s.Str, origSend, Attest(origSend, signers), body, cl, "own message")
 						a.Desc = fmt.Sprintf("replaceMessage(dst=%d,body#%d,caller#%d) by %s", d, bi, ci, s.Name)
 						check(a)
 					}
 				}
 				for ri, rc := range pats {
-					for ci, cl := range append(append([][]byte{}, pats...), Zero32, nil) {
+					for ci, cl := range rcallers {
+						if ext(ri >= qp, ci >= qc) {
+							continue
+						}
 						a := MkReplaceDeposit(s.Str, origDep, Attest(origDep, signers), cl, rc, "own deposit")
 						a.Desc = fmt.Sprintf("replaceDeposit(dst=%d,recipient#%d,caller#%d) by %s", d, ri, ci, s.Name)
 						o, p, ok := check(a)
